@@ -360,7 +360,7 @@ def configs(d, rng):
 
     # --- type
     for dt, nm in ((np.float64, "float64"), (np.float32, "float32"), (np.uint8, "uint8"), (np.uint16, "uint16"), (float, "float")):
-        reg(f"type({nm})", lambda info, dt=dt: d.TypeCorrection(dt), dtypes=("float64", "uint8", "float32", "uint16"), out_dtype=np.dtype(dt))
+        reg(f"type({nm})", lambda info, dt=dt: d.TypeCorrection(dt), dtypes=("float64", "uint8", "float32", "uint16"), out_dtype=("floating" if dt is float else np.dtype(dt)))
     reg("type(neutral)", lambda info: d.TypeCorrection({"float64": np.float64, "float32": np.float32, "uint8": np.uint8,
                                                         "uint16": np.uint16}[info["dtype"]]),
         dtypes=("float64", "uint8", "float32", "uint16"), neutral=True)
@@ -619,7 +619,8 @@ def check_case(d, case, cfgs=None, rngmod=None):
         if not (out.dtype == exp.dtype and data_equal(out, exp, cfg['tol'])):
             bad.append((f"{sig0}:data≠correct_array(raw)", f"result data {out.dtype}{out.shape} differs from correct_array(raw) {exp.dtype}{exp.shape}"))
     # --- declared result dtype (TypeCorrection: the requested type)
-    if cfg.get("out_dtype") is not None and out.dtype != cfg["out_dtype"]:
+    od = cfg.get("out_dtype")
+    if od is not None and (out.dtype.kind != "f" if isinstance(od, str) else out.dtype != od):
         bad.append((f"C10:{name}:{kind}:declared-dtype", f"result dtype {out.dtype}, declared {cfg['out_dtype']}"))
     # --- metadata
     if is_img:
